@@ -23,6 +23,7 @@ func init() {
 		Run: runC12,
 		Controls: []Control{
 			{Name: "refresh-window-clamped-to-ecmp-count", File: "routingtable/locRIB/loc_rib.go", Old: "\t\t\tn = opts.MaxPaths\n\t\t\tn = uint(math.Min(int(n), len(r.Paths())))\n\t\t}\n\n\t\tclient.RefreshRoute(", New: "\t\t\tn = opts.MaxPaths\n\t\t\tn = uint(math.Min(int(n), int(r.ECMPPathCount())))\n\t\t}\n\n\t\tclient.RefreshRoute(", Expect: "refresh-covers-the-clients-window"},
+			{Name: "reload-installs-the-configured-chain-raw", File: "protocols/bgp/server/peer.go", Old: "func (p *peer) replaceImportFilterChain(c filter.Chain) {\n\t// the same default as for a chain configured at start (see newPeer): no policy means reject all\n\tc = filterOrDefault(c)\n", New: "func (p *peer) replaceImportFilterChain(c filter.Chain) {\n", Expect: "in-place-policy-normalised-like-fresh-start"},
 			{Name: "removal-by-decision-equality", File: "route/route.go", Old: "\t\tif paths[j].Compare(remove) {\n", New: "\t\tif paths[j].Equal(remove) {\n", Expect: "decision-equality-is-not-identity"},
 			{Name: "refresh-skipped-for-empty-table", File: "routingtable/adjRIBOut/adj_rib_out.go", Old: "\ta.exportFilterChainPending = c\n\ta.rib.RefreshClient(a)\n", New: "\ta.exportFilterChainPending = c\n\tif a.rt.GetRouteCount() > 0 {\n\t\ta.rib.RefreshClient(a)\n\t}\n", Expect: "refresh-is-unconditional"},
 			{Name: "policy-verdict-marked-on-stored-path", File: "routingtable/adjRIBIn/adj_rib_in.go", Old: "\tp, reject := a.exportFilterChain.Process(pfx, p)\n\tif reject {\n\t\tp.HiddenReason = route.HiddenReasonFilteredByPolicy\n\t\treturn nil\n\t}\n\n\tfor _, client := range a.clientManager.Clients() {\n\t\tclient.AddPath(pfx, p)\n\t}\n", New: "\tfiltered, reject := a.exportFilterChain.Process(pfx, p)\n\tif reject {\n\t\tp.HiddenReason = route.HiddenReasonFilteredByPolicy\n\t\treturn nil\n\t}\n\n\tfor _, client := range a.clientManager.Clients() {\n\t\tclient.AddPath(pfx, filtered)\n\t}\n", Expect: "policy-verdict-not-stored"},
@@ -162,6 +163,7 @@ func behNames(fs []*core.Fn) string {
 }
 
 func runC12(c *core.Ctx) {
+	inPlacePolicyIsNormalisedLikeAFreshStart(c)
 	decisionEqualityIsNotIdentity(c, "decision-equality-is-not-identity")
 	refreshIsUnconditional(c, "refresh-is-unconditional")
 	eqNotSubset(c, "equality-is-not-inclusion")
